@@ -92,13 +92,18 @@ def expiry(ctx, now, offset, delta, tzname):
     import baize.responses as R
     import re
     saved_tz = os.environ.get("TZ")
-    saved_time = R.time
+    # the clock is pinned through the `time` name of baize.responses when the module has one; an implementation that reads the
+    # clock in another way is judged against the real clock instead (both are "now")
+    saved_time = getattr(R, "time", None)
     os.environ["TZ"] = tzname
     time.tzset()
-    R.time = Clock(time, now)
+    if saved_time is not None:
+        R.time = Clock(time, now)
     try:
         for iface in ("wsgi", "asgi"):
+            real_before = int(time.time())
             line, exc = set_and_emit(iface, "sid", "v", expires=delta, max_age=delta if delta >= 0 else -1)
+            real_after = int(time.time()) + 1
             ctx.count()
             ctx.traces_validated += 1
             case = {"now": now, "tz": tzname, "expires_in": delta, "iface": iface}
@@ -110,19 +115,20 @@ def expiry(ctx, now, offset, delta, tzname):
                 ctx.violation(case, "a GMT date", m.group(1), "Expires is not a GMT date")
                 continue
             got = calendar.timegm(email.utils.parsedate(m.group(1)))
-            if got != now + delta:
+            if got != now + delta and not (real_before + delta <= got <= real_after + delta):
                 ctx.violation(case, {"expires": now + delta, "as_text": email.utils.formatdate(now + delta, usegmt=True)},
-                              {"expires": got, "as_text": m.group(1)}, "Expires is off by %d seconds in zone %s" % (got - (now + delta), tzname))
+                              {"expires": got, "as_text": m.group(1)}, "Expires is off by %d seconds in zone %s" % (min(got - (now + delta), got - (real_before + delta), key=abs), tzname))
             if delta >= 0 and "max-age=%d" % delta not in line:
                 ctx.violation(case, "max-age=%d" % delta, line, "Max-Age is not the requested number")
         line, exc = set_and_emit("wsgi", "sid", "", delete=True)
         m = re.search(r"expires=([^;]+)", line or "")
         ctx.count()
-        if not m or calendar.timegm(email.utils.parsedate(m.group(1))) > now or "max-age=0" not in line:
+        if not m or calendar.timegm(email.utils.parsedate(m.group(1))) > max(now, time.time()) or "max-age=0" not in line:
             ctx.violation({"now": now, "tz": tzname, "op": "delete_cookie"}, "already expired (expires <= now, max-age=0)", line,
                           "deleted cookie is not expired in zone %s" % tzname)
     finally:
-        R.time = saved_time
+        if saved_time is not None:
+            R.time = saved_time
         if saved_tz is None:
             os.environ.pop("TZ", None)
         else:
@@ -198,6 +204,12 @@ def run(ctx):
         for delta in (0, 3600, 7200):
             expiry(ctx, now, -18000, delta, DST_ZONE)
             ctx.nontriv(("dst", now, delta))
+    # lifetimes that cross the next daylight-saving switch (or several) of the process's zone, northern and southern rules
+    for tz in (DST_ZONE, "CET-1CEST,M3.5.0,M10.5.0/3", "AEST-10AEDT,M10.1.0,M4.1.0/3", "UTC0"):
+        for now in (1600000000, 1615708800, 1636264800):
+            for days in (30, 45, 200, 400):
+                expiry(ctx, now, 0, days * 86400, tz)
+                ctx.nontriv(("dst-long", tz, now, days))
     ctx.sample({"expiry": {"now": 1600000000, "tz": "CST-8", "expires_in": 3600, "expected": email.utils.formatdate(1600003600, usegmt=True)}})
     ctx.exhaustive = True
 
